@@ -78,7 +78,8 @@ def cases(tier, seed):
     nmax = 24 if tier == "quick" else 48
     variants = list(itertools.product(
         ("grid", "cases", "mix", "mix2"), (False, True, 3),
-        ("none", "const", "farmer", "farmer-override", "const0", "farmer0")))
+        ("none", "const", "farmer", "farmer-override", "const0", "farmer0",
+         "farmer-extra")))
     for n in range(1, nmax + 1):
         reqs = [("batchsize", s) for s in range(1, n + 2)]
         reqs += [("num_batches", k) for k in range(1, n + 3)]
@@ -140,10 +141,16 @@ def check_case(case):
     farmer = const.startswith("farmer")
     # constants given for this run only override the farmer's stored ones
     override = {"k": 5} if const == "farmer-override" else None
+    extra_args, defaults = [], None
+    if const == "farmer-extra":
+        # a constant of a new name, given for one sow only (the function has
+        # a default for it)
+        override = {"x": 5}
+        extra_args, defaults = ["x"], {"x": 1}
     if farmer:
         resources = {"r": 0 if const == "farmer0" else 9}
-    f = xfn.make_fn(argnames + sorted(constants) + sorted(resources),
-                    kind="num", name="f07")
+    f = xfn.make_fn(argnames + sorted(constants) + sorted(resources)
+                    + extra_args, kind="num", name="f07", defaults=defaults)
 
     # ---- reference: what a direct run passes ------------------------------
     dcombos = {a: v for a, v in combos} if combos else None
@@ -153,14 +160,21 @@ def check_case(case):
         runner = xyz.Runner(f, var_names="out", constants=dict(constants),
                             resources=dict(resources))
 
+    # what the farmer is meant to hold at the moment (the reference run goes
+    # through a twin built from this, never through the farmer under test)
+    ref = {"constants": dict(constants), "resources": dict(resources)}
+
     def direct_run():
         if farmer:
             okw = {"constants": dict(override)} if override else {}
+            twin = xyz.Runner(f, var_names="out",
+                              constants=dict(ref["constants"]),
+                              resources=dict(ref["resources"]))
             if kind == "grid":
-                runner.run_combos(copy.deepcopy(dcombos), verbosity=0, **okw)
+                twin.run_combos(copy.deepcopy(dcombos), verbosity=0, **okw)
             else:
                 # (run_cases does not parse combos: hand them over parsed)
-                runner.run_cases(list(dcases), fn_args=fn_args,
+                twin.run_cases(list(dcases), fn_args=fn_args,
                                  combos=tuple(copy.deepcopy(dcombos).items())
                                  if dcombos else (), verbosity=0, **okw)
         else:
@@ -325,9 +339,16 @@ def check_case(case):
                         "Crop raised %r" % e))
     # ---- the farmer's stored constants are changed and the same Crop object
     # is sown again: the batches hold what a direct run passes *now* ---------
-    if farmer and case.get("resow"):
-        runner.constants = dict(constants, k=8)
-        runner.resources = {"r": 10}
+    if farmer and (case.get("resow") or const == "farmer-extra"):
+        if const == "farmer-extra":
+            # (the farmer is left as it is; this time nothing is given for
+            # the sow alone)
+            override = sow_consts = None
+        else:
+            runner.constants = dict(constants, k=8)
+            runner.resources = {"r": 10}
+            ref["constants"] = dict(constants, k=8)
+            ref["resources"] = {"r": 10}
         with xfn.CallLog() as direct2:
             direct_run()
         want2 = collections.Counter(direct2.encs())
